@@ -343,3 +343,35 @@ void bad_realloc_keep__overwrites_only_dyn(struct st_vec *a, size_t digits) {
 		return;
 	}
 }
+
+/* ------------------------------------------------------------------ REC-EMPTY */
+void ok_rec_empty__tested(ep_t r, const ep_t *t, const bn_t k) {
+	int8_t naf[RLC_FP_BITS + 1];
+	size_t l = RLC_FP_BITS + 1;
+	bn_t m, n;
+	bn_null(m); bn_null(n); bn_new(m); bn_new(n);
+	ep_curve_get_ord(n);
+	bn_mod(m, k, n);
+	if (bn_is_zero(m)) {
+		ep_set_infty(r);
+		return;
+	}
+	bn_rec_naf(naf, &l, m, 4);
+	ep_copy(r, t[naf[l - 1] / 2]);
+}
+
+/* zero is tested before the reduction: k = n reduces to zero and the recoding is empty */
+void bad_rec_empty__before_reduction(ep_t r, const ep_t *t, const bn_t k) {
+	int8_t naf[RLC_FP_BITS + 1];
+	size_t l = RLC_FP_BITS + 1;
+	bn_t m, n;
+	if (bn_is_zero(k)) {
+		ep_set_infty(r);
+		return;
+	}
+	bn_null(m); bn_null(n); bn_new(m); bn_new(n);
+	ep_curve_get_ord(n);
+	bn_mod(m, k, n);
+	bn_rec_naf(naf, &l, m, 4);
+	ep_copy(r, t[naf[l - 1] / 2]);
+}
